@@ -2,6 +2,7 @@
    Theorems about coq/C11/Model.v (see Proofs.v); every statement is closed under the global context. *)
 From Coq Require Import List NArith Bool.
 From V.C11 Require Import Model Proofs.
+From V.C11 Require HSModel HSProofs.
 Import ListNotations.
 Open Scope N_scope.
 
@@ -391,6 +392,70 @@ Example C11_lazy_stale_notification_dropped :
   flat_map (fun x => snd (fst x)) (fst (lrun cfg_w 5 linit w_stale_notif)) =
   [UOpened 0 DOut; UClosed 0; UValidate 0; UOpened 0 DIn].
 Proof. vm_compute. reflexivity. Qed.
+
+(* ---- the HandshakeService on its own (HSModel.v: the map `substreams` with handshake state, carrier and
+   negotiation timer per substream, the queue `ready`, poll_next with the visiting order as an input) ----
+   The main model treats it as two membership bits per peer and lets handshake events happen only for a
+   substream the service holds (guards hsI / hsO of main_handler: `enabled`). That assumption is a theorem
+   of the component: whatever the history of calls, carrier events, timeouts and polls, and whatever order
+   the map is visited in, a poll reports an event only for a key that is in the map; *)
+Theorem C11_hs_events_only_for_held_substreams :
+  forall (h : HSModel.hs) (ord : list HSModel.key) (h' : HSModel.hs) (k : HSModel.key),
+    (exists rd, HSModel.poll h ord = (h', HSModel.PNeg k rd)) \/ HSModel.poll h ord = (h', HSModel.PErr k) ->
+    HSModel.has k h = true.
+Proof. exact HSProofs.poll_held. Qed.
+Print Assumptions C11_hs_events_only_for_held_substreams.
+
+(* Negotiated hands the substream out: the key is gone, so it is reported at most once; *)
+Theorem C11_hs_negotiated_hands_out :
+  forall (h : HSModel.hs) (ord : list HSModel.key) (h' : HSModel.hs) (k : HSModel.key) (rd : bool),
+    HSModel.poll h ord = (h', HSModel.PNeg k rd) -> HSModel.has k h' = false.
+Proof. exact HSProofs.poll_neg_removes. Qed.
+Print Assumptions C11_hs_negotiated_hands_out.
+
+(* NegotiationError leaves the substream in the map: the owner has to remove it (on_handshake_event and
+   on_substream_open_failure do; the third-round seeded change dropped those calls), else the error repeats; *)
+Theorem C11_hs_error_keeps_substream :
+  forall (h : HSModel.hs) (ord : list HSModel.key) (h' : HSModel.hs) (k : HSModel.key),
+    HSModel.poll h ord = (h', HSModel.PErr k) -> HSModel.has k h' = true.
+Proof. exact HSProofs.poll_err_keeps. Qed.
+Print Assumptions C11_hs_error_keeps_substream.
+
+(* a substream whose negotiation timer (NEGOTIATION_TIMEOUT) fired is failed as soon as the loop reaches it,
+   whatever its carrier offers; *)
+Theorem C11_hs_timeout_fails :
+  forall (e : HSModel.hent), HSModel.e_timed e = true -> HSModel.visit1 e = HSModel.VErr.
+Proof. exact HSProofs.visit1_timed. Qed.
+Print Assumptions C11_hs_timeout_fails.
+
+(* the keys of the map stay unique under every step; *)
+Theorem C11_hs_keys_unique :
+  forall (h : HSModel.hs) (o : HSModel.hop),
+    HSProofs.uniq (HSModel.ents h) -> HSProofs.uniq (HSModel.ents (fst (HSModel.hstep h o))).
+Proof. exact HSProofs.step_uniq. Qed.
+Print Assumptions C11_hs_keys_unique.
+
+(* a key that is not in the map is silent (a removed substream produces no event). *)
+Theorem C11_hs_removed_is_silent :
+  forall (h : HSModel.hs) (ord : list HSModel.key) (h' : HSModel.hs) (k : HSModel.key),
+    HSModel.has k h = false -> (forall rd, ~ In (k, rd) (HSModel.ready h)) ->
+    (forall rd, HSModel.poll h ord <> (h', HSModel.PNeg k rd)) /\ HSModel.poll h ord <> (h', HSModel.PErr k).
+Proof. exact HSProofs.poll_silent. Qed.
+Print Assumptions C11_hs_removed_is_silent.
+
+(* Observation (reproduced with the real HandshakeService, corpus w14; outside the text of C11): remove_inbound /
+   remove_outbound do not purge `ready`, and is_empty() only looks at the map. When a completed handshake is
+   queued in `ready` and another substream of the same poll fails first, the handler removes both substreams,
+   the queued entry stays; if the peer's next substream of that direction is handed in before the service is
+   polled again (the biased select skips the service while the map is empty), pop_event matches the stale
+   entry with the NEW substream: Negotiated with the handshake of the old one, although nothing was read from
+   (or written to) the new one. *)
+Theorem C11_hs_stale_ready_refuted :
+  map snd (HSModel.hrun HSModel.hs0 HSProofs.w_stale) =
+  [HSModel.PPending; HSModel.PPending; HSModel.PPending; HSModel.PPending; HSModel.PErr 1;
+   HSModel.PPending; HSModel.PPending; HSModel.PPending; HSModel.PNeg 0 true].
+Proof. exact HSProofs.stale_ready_run. Qed.
+Print Assumptions C11_hs_stale_ready_refuted.
 
 Example C11_parked_handler_resumes :
   map (fun x => (parked 1 (fst (fst x)), snd (fst x), snd x)) (fst (lrun cfg_w0 1 linit w_parked)) =
